@@ -44,3 +44,32 @@ Example C19_example :
   complete_lines P = true /\ count_nl P = 2 /\
   true_pos src 8%nat = (2, 5) /\ true_pos (P ++ src) (List.length P + 8)%nat = (4, 5).
 Proof. vm_compute. repeat split; reflexivity. Qed.
+
+(* ---- line/offset parametricity of the whole lexer model (Proofs/LineShift.v): the tokenizer never branches on the line
+   number or the raw offset, it only records them *)
+From NV Require Import Proofs.LineShift Proofs.LineShiftCor.
+(* from the state reached after a prefix of complete lines, lexing continues exactly as the lexing of the text from the
+   initial state, n lines lower and m raw characters later; composed with the run on the prefix GIVEN that the steps
+   inside the prefix do not look past its end (`steps_local`, checked by evaluation for concrete prefixes; searched otherwise) *)
+Theorem C19_step_line_offset_parametric : forall k d uw ud x, step uw ud (shl k d x) = sh_step k d (step uw ud x).
+Proof. exact step_shl. Qed.
+Print Assumptions C19_step_line_offset_parametric.
+
+Theorem C19_lex_from_shift : forall k d uw ud fuel x acc,
+  lex_loop uw ud fuel (shl k d x) acc = pre_items acc (sh_out k d (lex_loop uw ud fuel x [])).
+Proof. exact lex_from_shift. Qed.
+Print Assumptions C19_lex_from_shift.
+
+Theorem C19_continue_after_prefix : forall uw ud src n m acc items xf fuel,
+  lex uw ud src = Ok (items, xf) -> (S (List.length src) <= fuel)%nat ->
+  lex_loop uw ud fuel (mkst src m (1 + n) 1 []) acc = Ok (rev acc ++ map (sh_item n m) items, shl n m xf).
+Proof. exact continue_after_prefix. Qed.
+Print Assumptions C19_continue_after_prefix.
+
+Theorem C19_prefix_then_text_given_locality : forall uw ud P src n itemsP items xf,
+  lex uw ud P = Ok (itemsP, mkst [] (List.length P) (1 + n) 1 []) ->
+  steps_local uw ud src (S (List.length P)) (init P) ->
+  lex uw ud src = Ok (items, xf) ->
+  lex uw ud (P ++ src) = Ok (itemsP ++ map (sh_item n (List.length P)) items, shl n (List.length P) xf).
+Proof. exact prefix_then_text_given_locality. Qed.
+Print Assumptions C19_prefix_then_text_given_locality.
